@@ -81,6 +81,7 @@ type c03Scenario struct {
 	Cause      string                  `json:"cause"`    // eof, readerr, close
 	Procs      int                     `json:"gomaxprocs"`
 	WelcomeNew bool                    `json:"welcome_new_nick"`
+	Cycles     int                     `json:"cycles"` // the same client runs the session again after reconnecting (0/1 = once)
 }
 
 // message verbs, a numeric, an unknown verb, and verbs that also have built-in internal handlers
@@ -135,6 +136,7 @@ func genC03(t *rapid.T) *c03Scenario {
 	sc.Cause = rapid.SampledFrom([]string{"eof", "readerr", "close"}).Draw(t, "cause")
 	sc.Procs = rapid.SampledFrom([]int{1, 2, 4, 16}).Draw(t, "gomaxprocs")
 	sc.WelcomeNew = rapid.Bool().Draw(t, "welcome_new")
+	sc.Cycles = rapid.SampledFrom([]int{1, 1, 2}).Draw(t, "cycles")
 	return sc
 }
 
@@ -166,7 +168,8 @@ func runC03(sc *c03Scenario) *Violation {
 	defer runtime.GOMAXPROCS(old)
 	tc := newTestClient(cliOpts{Flood: true, Nick: "me"})
 	defer tc.release()
-	log := &hLog{}
+	var curLog atomic.Pointer[hLog]
+	curLog.Store(&hLog{})
 	welcomeNick := "me"
 	if sc.WelcomeNew {
 		welcomeNick = "me2"
@@ -177,6 +180,7 @@ func runC03(sc *c03Scenario) *Violation {
 			h, name := h, fmt.Sprintf("%s#%d", verb, i)
 			tc.C.HandleFunc(verb, func(c *client.Conn, l *client.Line) {
 				s := seqOf(l)
+				log := curLog.Load()
 				log.add(true, s, name, "")
 				behave(h.Kind, h.K)
 				log.add(false, s, name, "")
@@ -190,20 +194,44 @@ func runC03(sc *c03Scenario) *Violation {
 		}
 	}
 	tc.C.HandleFunc(client.CONNECTED, func(c *client.Conn, l *client.Line) {
+		log := curLog.Load()
 		log.add(true, wseq, "CONNECTED", "")
 		meInConnected.Store(c.Me().Nick)
 		behave(1, 3)
 		log.add(false, wseq, "CONNECTED", "")
 	})
-	discDone := make(chan struct{})
-	var discOnce sync.Once
+	discDone := make(chan struct{}, 8)
 	tc.C.HandleFunc(client.DISCONNECTED, func(c *client.Conn, l *client.Line) {
-		log.add(true, 1<<30, "DISCONNECTED", "")
-		discOnce.Do(func() { close(discDone) })
+		curLog.Load().add(true, 1<<30, "DISCONNECTED", "")
+		discDone <- struct{}{}
 	})
+	cycles := sc.Cycles
+	if cycles < 1 {
+		cycles = 1
+	}
+	for cycle := 0; cycle < cycles; cycle++ {
+		if cycle > 0 {
+			// the same client, a new connection: nothing of the previous one may leak into it
+			if !waitCond(stallTimeout(), func() bool { n, _, _ := connGoroutines(tc.C); return n == 0 }) {
+				return violationf("C03", "goroutines of the previous connection still present before the reconnect")
+			}
+			curLog.Store(&hLog{})
+		}
+		if v := runC03Cycle(sc, tc, &curLog, discDone, welcomeNick, wseq, &meInConnected); v != nil {
+			if cycle > 0 {
+				v.Msg = fmt.Sprintf("second connection of the same client: %s", v.Msg)
+			}
+			return v
+		}
+	}
+	return nil
+}
+
+func runC03Cycle(sc *c03Scenario, tc *testClient, curLog *atomic.Pointer[hLog], discDone chan struct{}, welcomeNick string, wseq int, meInConnected *atomic.Value) *Violation {
 	if err := tc.connect(); err != nil {
 		return violationf("C03", "connect: %v", err)
 	}
+	log := curLog.Load()
 	conn := tc.conn()
 	total := len(sc.Verbs)
 	acked := total - sc.Unread
